@@ -30,7 +30,22 @@ def c03(ctx, spec):
     ctx.run_sharded('c03', n, args=['--maxext', 6, '--vals', 4])
     ctx.run_sharded('c03', n // 4, args=['--maxext', T(ctx, 7, 9), '--vals', 2], label='c03b')
 
+# ---------------------------------------------------------------------------------------------- C07
+def c07(ctx, spec):
+    ctx.build([dict(name='c07_d%d' % d, src='harness/c07_cmp.cpp', cfg='asan', defs=['C07_D=%d' % d]) for d in (0, 1, 2, 3, 4)])
+    n = T(ctx, 12000, 500000)
+    for d in (0, 1, 2, 3, 4):
+        ctx.run_sharded('c07_d%d' % d, n if d else n // 6, args=['--maxext', 3 if d < 4 else 2], shards=3)
+    un = sorted(k for k in ctx.counters if k.startswith('unavailable:'))
+    ctx.extra['operator_availability'] = {'unavailable (does not compile, skipped)': un[:80], 'n_available_pairs': len([k for k in ctx.counters if k.startswith('avail:')])}
+
 REGISTRY = {
+    'C07': dict(fn=c07, level='exploration',
+                rule='pairs (and triples) of operands with values in {0,1}, D 0..4, extents 1..3 (zero sometimes), b derived from a (same / one flip / permuted extents with the same flat sequence / one extent +-1 keeping common tuples / other factorisation / unrelated); '
+                     '9 operand kinds (array, const array, padded block view, transposed view, strided view, array_ref, array<long>, unrotated view, subarray()) x 9, plus two differently laid out views of the SAME storage; every relational operator that compiles (detection idiom; availability table in evidence) '
+                     'is compared with a nested-vector model (== iff same extents in every dimension and equal elements; < recursive lexicographic with proper prefix smaller), plus != is negation, trichotomy, transitivity of < and ==, congruence of == with <. Empty operands: only ==/!= consistency. '
+                     'distinct = hash(kind pair, extents relation, model relation); non-trivial = both operands non-empty',
+                assumptions=['nested-vector model is the specification', 'operators that do not compile for a kind pair are skipped and listed']),
     'C03': dict(fn=c03, level='exploration',
                 rule='20 standard algorithms x {begin()/end() (proxy sub-views for D>1), elements()} x view families (whole, padded block, rotated, transposed block, strided rows/columns, column, row, diagonal, sub[i]; root D 1..3, sizes 0..9, values 0..3 with many duplicates); '
                      'the same algorithm runs on a std::vector<vector<int>> model; contents are read back through raw root storage + table model; exact equality for fully specified algorithms, prefix-only for unique/remove, destination-only for move, '
